@@ -152,3 +152,15 @@ mut('c10-revert-F8-le-odd', ['C10'], 'src/reader/decoder.rs', "            Encod
 mut('c10-utf16-surrogate-drop', ['C10'], 'src/reader/encoding.rs', "let chars = char::decode_utf16(src).map(|ch| ch.unwrap_or(char::REPLACEMENT_CHARACTER));", "let chars = char::decode_utf16(src).filter_map(|ch| ch.ok());")
 mut('c10-utf8-error-len-skip-one', ['C10'], 'src/reader/encoding.rs', "src = &src[valid_up_to + error_len..];", "src = &src[valid_up_to + 1..];")
 mut('c10-bom-utf8-not-skipped', ['C10','C05'], 'src/reader/encoding.rs', "[0xEF, 0xBB, 0xBF, ..] => (Self::Utf8, 3),", "[0xEF, 0xBB, 0xBF, ..] => (Self::Utf8, 0),")
+
+# ---- C15
+mut('c15-sort-unstable', ['C15'], 'src/section/hit_objects/decode.rs', "hit_objects.sort_by(|a, b| a.start_time.total_cmp(&b.start_time));", "hit_objects.sort_unstable_by(|a, b| a.start_time.total_cmp(&b.start_time));")
+mut('c15-leniency-0', ['C15'], 'src/section/hit_objects/decode.rs', "const CONTROL_POINT_LENIENCY: f64 = 5.0;", "const CONTROL_POINT_LENIENCY: f64 = 0.0;")
+mut('c15-break-le', ['C15'], 'src/section/hit_objects/decode.rs', "&& events.breaks[curr_break].end_time < h.start_time", "&& events.breaks[curr_break].end_time <= h.start_time")
+mut('c15-node-time-uses-start', ['C15'], 'src/section/hit_objects/decode.rs', "                        h.start_time + i as f64 * duration / span_count + CONTROL_POINT_LENIENCY;", "                        h.start_time + i as f64 * duration + CONTROL_POINT_LENIENCY;")
+mut('c15-sample-at-start', ['C15'], 'src/section/hit_objects/decode.rs', "                .sample_point_at(end_time + CONTROL_POINT_LENIENCY)", "                .sample_point_at(h.start_time + CONTROL_POINT_LENIENCY)")
+mut('c15-hold-gets-combo', ['C15'], 'src/section/hit_objects/decode.rs', "                HitObjectKind::Spinner(ref mut h) => h.new_combo |= force_new_combo,", "                HitObjectKind::Spinner(_) => {}")
+mut('c15-velocity-uses-end-point', ['C15'], 'src/section/hit_objects/decode.rs', "                    .difficulty_point_at(h.start_time)\n                    .map_or(DifficultyPoint::DEFAULT_SLIDER_VELOCITY, |point| {", "                    .difficulty_point_at(h.start_time + 1.0)\n                    .map_or(DifficultyPoint::DEFAULT_SLIDER_VELOCITY, |point| {")
+mut('c15-force-combo-sticky', ['C15'], 'src/section/hit_objects/decode.rs', "            force_new_combo = false;\n        }", "            if !matches!(h.kind, HitObjectKind::Hold(_)) { force_new_combo = false; }\n        }")
+
+# (equivalent: the 1000 vs 10000 upper clamp of the precision-adjusted beat length never binds because slider velocity is already clamped to [0.1, 10])
